@@ -76,6 +76,54 @@ def step (line : String) : String :=
     let alpha := ",".intercalate ((List.range n).map fun k => floatTok (al k))
     let bv := if b then floatTok (computeBias s (fun c => Float.ofNat c)) else "0@0"
     s!"acc={if acc then 1 else 0} it={it} alpha=[{alpha}] b={bv}"
+  | "csvm2" :: bias :: shrink :: Cn :: Cp :: eps :: maxit :: nT :: dT :: rest =>
+    -- class-specific C and per-example weights, cold start
+    let n := nT.toNat!; let d := dT.toNat!
+    let a := rest.toArray
+    if a.size != n * d + 2 * n then "bad-op" else
+    let x := fun i k => tokFloat (a.getD (i * d + k) "0@0")
+    let y := fun i => a.getD (n * d + i) "0" == "1"
+    let w := fun i => tokFloat (a.getD (n * d + n + i) "0@0")
+    let Karr := Array.ofFn (n := n * n) fun p =>
+      (List.range d).foldl (fun acc k => acc + x (p.val / n) k * x (p.val % n) k) 0.0
+    let K := fun i j => Karr.getD (i * n + j) 0.0
+    let b := bias == "1"
+    let s0 := compact (csvmInit2 n K y (tokFloat Cn) (tokFloat Cp) w b (shrink == "1"))
+    let (s, acc, it) := solveLoop (if b then 1 else 2) (tokFloat eps) maxit.toNat! s0 0 0
+    let al := unpermutedAlpha s 0.0
+    let alpha := ",".intercalate ((List.range n).map fun k => floatTok (al k))
+    let bv := if b then floatTok (computeBias s (fun c => Float.ofNat c)) else "0@0"
+    s!"acc={if acc then 1 else 0} it={it} alpha=[{alpha}] b={bv}"
+  | "esvr" :: shrink :: C :: tube :: eps :: maxit :: nT :: dT :: rest =>
+    -- epsilon-regression: coefficients, stop reason and iteration count (the offset is not modelled: finding F-C07-1)
+    let n := nT.toNat!; let d := dT.toNat!
+    let a := rest.toArray
+    if a.size != n * d + n then "bad-op" else
+    let x := fun i k => tokFloat (a.getD (i * d + k) "0@0")
+    let y := fun i => tokFloat (a.getD (n * d + i) "0@0")
+    let Karr := Array.ofFn (n := n * n) fun p =>
+      (List.range d).foldl (fun acc k => acc + x (p.val / n) k * x (p.val % n) k) 0.0
+    let K := fun i j => Karr.getD (i * n + j) 0.0
+    let s0 := compact (epsInit n K y (tokFloat C) (tokFloat tube) (shrink == "1"))
+    let (s, acc, it) := solveLoop 1 (tokFloat eps) maxit.toNat! s0 0 0
+    let al := epsCoefficients n s 0.0
+    let alpha := ",".intercalate ((List.range n).map fun k => floatTok (al k))
+    s!"acc={if acc then 1 else 0} it={it} alpha=[{alpha}] b=skip"
+  | "ocsvm" :: shrink :: nu :: eps :: maxit :: nT :: dT :: rest =>
+    let n := nT.toNat!; let d := dT.toNat!
+    let a := rest.toArray
+    if a.size != n * d then "bad-op" else
+    let x := fun i k => tokFloat (a.getD (i * d + k) "0@0")
+    let Karr := Array.ofFn (n := n * n) fun p =>
+      (List.range d).foldl (fun acc k => acc + x (p.val / n) k * x (p.val % n) k) 0.0
+    let K := fun i j => Karr.getD (i * n + j) 0.0
+    let nuF := tokFloat nu
+    let s0 := compact (oneClassInit n K nuF (Float.ofNat n) (shrink == "1"))
+    let (s, acc, it) := solveLoop 1 (tokFloat eps) maxit.toNat! s0 0 0
+    let al := unpermutedAlpha s 0.0
+    let alpha := ",".intercalate ((List.range n).map fun k => floatTok (al k))
+    let bv := floatTok (oneClassOffset s (1.0 / (nuF * Float.ofNat n)) (fun c => Float.ofNat c))
+    s!"acc={if acc then 1 else 0} it={it} alpha=[{alpha}] b={bv}"
   | [] => ""
   | _ => "bad-op"
 
